@@ -419,6 +419,16 @@ func runC01(c *Ctx) {
 				continue
 			}
 			dirConst, ok := constInt(args[1])
+			if !ok {
+				// a direction parameter, decided by the case of the switch on it that the call lies in
+				for _, l := range guardsOf(call.(ssa.Instruction).Block()) {
+					if op, x, y, isCmp := l.cmpWith(args[1]); isCmp && op == token.EQL && stripConv(x) == stripConv(args[1]) {
+						if k, isK := constInt(y); isK {
+							dirConst, ok = k, true
+						}
+					}
+				}
+			}
 			dir := "?"
 			if ok && dirConst == e.readEv {
 				dir = "read"
@@ -966,12 +976,31 @@ func checkArming(c *Ctx, e *e2, handler *ssa.Function, field *types.Var) {
 	p := c.P
 	// functions that install this handler
 	var installers []*ssa.Function
+	// an installer shared by both directions installs this handler only under `param == constant`: calls that pass
+	// another constant do not install it
+	type cond struct {
+		idx int
+		k   int64
+	}
+	installCond := map[*ssa.Function]cond{}
 	for _, fn := range p.Funcs {
 		for _, call := range callsTo(fn, e.slotSet) {
 			args := call.Common().Args
 			if len(args) == 3 {
 				if hf, _, _ := handlerFunction(p, args[2]); hf == handler {
 					installers = append(installers, fn)
+					for _, l := range guardsOf(call.(ssa.Instruction).Block()) {
+						if op, x, y, isCmp := l.cmp(); isCmp && op == token.EQL {
+							for i, q := range fn.Params {
+								if k, isK := constInt(y); isK && stripConv(x) == ssa.Value(q) {
+									installCond[fn] = cond{i, k}
+								}
+								if k, isK := constInt(x); isK && stripConv(y) == ssa.Value(q) {
+									installCond[fn] = cond{i, k}
+								}
+							}
+						}
+					}
 				}
 			}
 		}
@@ -1223,6 +1252,11 @@ func checkArming(c *Ctx, e *e2, handler *ssa.Function, field *types.Var) {
 				need, ok := needs[callee]
 				if !ok || need >= len(call.Common().Args) {
 					return
+				}
+				if ic, has := installCond[callee]; has && ic.idx < len(call.Common().Args) {
+					if k, isK := constInt(call.Common().Args[ic.idx]); isK && k != ic.k {
+						return // this call selects the other direction's handler
+					}
 				}
 				arg := call.Common().Args[need]
 				if loadedField(arg) == field {
